@@ -21,13 +21,13 @@ RULE = ("dump leg: 4 coolers (both modes, fixed and variable table, weights with
         "value) columns occupy EVERY injective assignment into 6 columns for `cload pairs --field`, likewise bg2/coo value columns for "
         "`load --field`; oracle: reference binning + aggregation. zoomify leg: every -r spelling (shared with C09). Non-trivial: >=1 row "
         "dumped and >=1 option on / a non-monotone layout. Distinct by construction.")
-BOUNDS = {"quick": "dump: 14 regions per cooler; layouts: all 360 positional layouts + every 4th of the 720 five-column layouts",
+BOUNDS = {"quick": "dump: ~20 regions per cooler incl. nested / partially overlapping -r/-r2 pairs; layouts: all 360 positional layouts + every 4th of the 720 five-column layouts",
           "thorough": "dump: + all aligned region pairs; layouts: all 360 + all 720 + every 4th six-column layout"}
 ASSUMPTIONS = ["only the count column is dumped by `cooler dump` (documented behaviour); the row ORDER is compared for the direct engine, the row SET for -f"]
 EXPECT_CLASSES = {"*": ["dump", "dump:fill", "dump:join", "dump:balanced", "roundtrip", "layout:monotone", "layout:non-monotone", "zoomify-r"]}
 
 SPECS = [  # (table, symm)
-    (((2, 2), (2, 2)), True), (((1, 3), (2, 1, 1)), True), (((2, 2), (2, 2)), False), (((2, 1), (3,), (1, 1)), False),
+    (((2, 2, 2), (2, 2)), True), (((1, 3), (2, 1, 1)), True), (((2, 2), (2, 2)), False), (((2, 1), (3,), (1, 1)), False),
 ]
 
 
@@ -70,8 +70,16 @@ def regions(bins, th):
             singles.append(f"{c}:1-2")
     keep = singles if th else singles[:7]
     out += [(r, None) for r in keep]
+    # quick: disjoint pairs, pairs on different chromosomes, and OVERLAPPING but not identical pairs (column range nested in the row
+    # range and the reverse, partial overlap) - the windows that start above the diagonal and extend below it
+    nb = {c: sum(1 for b in bins if b[0] == c) for c in names}
+    big = max(names, key=lambda c: nb[c])          # the chromosome with most bins: nested windows there reach below the diagonal
+    ed = sorted({0} | {b[2] for b in bins if b[0] == big})
+    whole, mid, head, tail = big, f"{big}:{ed[1]}-{ed[2]}", f"{big}:{ed[0]}-{ed[2]}", f"{big}:{ed[1]}-{ed[-1]}"
     pairs = list(itertools.product(singles, repeat=2)) if th else [(singles[0], singles[-1]), (singles[-1], singles[0]), (singles[1], singles[2]),
-                                                                       (singles[2], singles[1]), (names[0], names[-1]), (names[-1], names[0])]
+                                                                       (singles[2], singles[1]), (names[0], names[-1]), (names[-1], names[0]),
+                                                                       (whole, mid), (mid, whole), (head, tail), (tail, head), (whole, tail), (tail, whole),
+                                                                       (head, mid), (mid, head)]
     out += [(a, b) for a, b in pairs if a != b]
     return out
 
